@@ -78,6 +78,7 @@ def reached():
 
 
 REACH = [False]
+FAIL_LOG = []
 
 
 def check(cond, reason, **ctx):
@@ -98,7 +99,11 @@ def check(cond, reason, **ctx):
             LAST["known"].append(reason)
             raise KnownHit(reason)
     LAST["reason"] = reason
-    LAST["ctx"] = {k: _plain(v) for k, v in ctx.items()}
+    FAIL_LOG.append(reason)
+    try:
+        LAST["ctx"] = {k: _plain(v) for k, v in ctx.items()}
+    except BaseException:
+        LAST["ctx"] = None
     raise Fail(reason, ctx)
 
 
